@@ -23,34 +23,39 @@ var Fertilisers = []string{"KAS", "AHL", "H", "NPK", "ALZ", "AZU", "NIT", "RG", 
 
 // Opts steer the random project generator.
 type Opts struct {
-	Years        int      // simulated years (>= 1)
-	MinLayers    int      // minimum number of 10 cm layers
-	MaxLayers    int
-	Crops        []string // candidate crops (nil = all annual main crops)
-	NoCrops      bool     // bare soil only (rotation has only the initial crop)
-	Layouts      []int    // candidate weather layouts
-	ETMethods    []int
-	HeavyRain    bool // rain distribution with a heavy tail (many sub-steps)
-	Stones       bool // high stone contents
-	MaxStone     int  // upper bound of the stone content in % (0 = 95)
-	Drain        bool // drain pipes
-	ShallowGW    bool // groundwater inside the profile
-	GWFrom       []string
-	Schedules    bool // fertiliser / irrigation / tillage events
-	Measure      bool
-	ColdWinters  bool
-	DateFormats  []int
-	StartYearMin int
-	StartYearMax int
-	BeginAnyDay  bool // start anywhere in the start year (else August..October)
+	Years         int // simulated years (>= 1)
+	MinLayers     int // minimum number of 10 cm layers
+	MaxLayers     int
+	Crops         []string // candidate crops (nil = all annual main crops)
+	NoCrops       bool     // bare soil only (rotation has only the initial crop)
+	Layouts       []int    // candidate weather layouts
+	ETMethods     []int
+	HeavyRain     bool // rain distribution with a heavy tail (many sub-steps)
+	Stones        bool // high stone contents
+	MaxStone      int  // upper bound of the stone content in % (0 = 95)
+	Drain         bool // drain pipes
+	ShallowGW     bool // groundwater inside the profile
+	GWFrom        []string
+	Schedules     bool // fertiliser / irrigation / tillage events
+	Measure       bool
+	ColdWinters   bool
+	DateFormats   []int
+	StartYearMin  int
+	StartYearMax  int
+	BeginAnyDay   bool // start anywhere in the start year (else August..October)
 	LeachAtBottom bool
-	Peat         bool
-	NoRad        bool // no radiation column: sunshine hours are used instead
-	PolarLat     bool // latitudes up to +-78 degrees (day length clamps)
-	Drought      bool // long dry spells
-	BulkExplicit bool // explicit bulk density values (csv soil)
-	HighCorg     bool // organic carbon up to 6 %
-	BeginMonth   int  // start in this month of the start year (0 = see BeginAnyDay)
+	Peat          bool
+	NoRad         bool // no radiation column: sunshine hours are used instead
+	PolarLat      bool // latitudes up to +-78 degrees (day length clamps)
+	Drought       bool // long dry spells
+	BulkExplicit  bool // explicit bulk density values (csv soil)
+	HighCorg      bool // organic carbon up to 6 %
+	BeginMonth    int  // start in this month of the start year (0 = see BeginAnyDay)
+	RainLadder    bool // every second day of the first two years carries the next step of a rain ladder (1.7 mm steps up to
+	// 500 mm): the day's sub-step count sweeps a contiguous range (every count n, not only those a random series happens to hit)
+	WetTopsoil bool // explicit hydraulic parameters with field capacities of 50-62 vol % (light clays, mucks): the mean water
+	// content of the top 30 cm exceeds 0.5, where the oxygen factor of the denitrification model changes sign
+	WinterCrops bool // rotation of winter crops only (a crop stands on the field in mid winter)
 }
 
 func pick[T any](r *rand.Rand, xs []T) T { return xs[r.Intn(len(xs))] }
@@ -184,6 +189,11 @@ func Random(r *rand.Rand, name string, o Opts) *Project {
 		if o.HighCorg {
 			h.Corg100 = between(r, 0, 600)
 		}
+		if o.WetTopsoil {
+			h.FC = between(r, 50, 62)
+			h.WP = between(r, 25, 35)
+			h.PV = h.FC + between(r, 3, 8)
+		}
 		if o.Stones && o.MaxStone > 0 {
 			h.StonePct = pick(r, []int{0, 10, 30, o.MaxStone})
 		} else if o.Stones {
@@ -228,6 +238,9 @@ func Random(r *rand.Rand, name string, o Opts) *Project {
 		crops := o.Crops
 		if len(crops) == 0 {
 			crops = append(append([]string{}, SpringCrops...), WinterCrops...)
+		}
+		if o.WinterCrops {
+			crops = WinterCrops
 		}
 		last := begin
 		for {
@@ -287,6 +300,9 @@ func Random(r *rand.Rand, name string, o Opts) *Project {
 				continue
 			}
 			cm := pick(r, []int{5, 10, 15, 20, 25, 30, 40})
+			if r.Intn(2) == 0 {
+				cm = between(r, 1, 44) // any working depth: the mixing depth is the rounded number of layers
+			}
 			for cm > nl*10-6 && cm > 5 { // tillage stays inside the soil profile (round(cm/10) <= layers)
 				cm -= 5
 			}
@@ -331,6 +347,25 @@ func Random(r *rand.Rand, name string, o Opts) *Project {
 			a := r.Intn(len(w.Days))
 			for i := a; i < a+between(r, 150, 250) && i < len(w.Days); i++ {
 				w.Days[i].Rain = 0
+			}
+		}
+	}
+	if o.RainLadder {
+		k := 0
+		for i := begin - first + 30; i < len(w.Days) && k < 295; i += 2 {
+			k++
+			w.Days[i].Rain = k * 17 // tenths of mm
+			if i+1 < len(w.Days) {
+				w.Days[i+1].Rain = 0
+			}
+		}
+	}
+	if o.PolarLat && w.HasRad {
+		// measured global radiation is zero in the polar night
+		for i := range w.Days {
+			d := Doy(first + i)
+			if (c.Lat100 > 6650 && (d > 325 || d < 20)) || (c.Lat100 < -6650 && d > 150 && d < 200) {
+				w.Days[i].Rad = 0
 			}
 		}
 	}
